@@ -66,33 +66,31 @@ def rules_pairing(run):
     ss = labelled_sites(run, si)
     cr = [s for s in ss if s.label == 'create_stab']
     ap = [s for s in ss if s.label == 'apply_step']
-    whiles = [n for n in q.walk(S, False) if isinstance(n, ast.While)]
-    run.check(len(whiles) == 1, r, si.short, 'stabilisation is a loop', '_stabilize must loop until nothing is left to stabilise', S)
-    if whiles:
-        w = whiles[0]
-        c = q.canon_atom(w.test)
-        var = c[1] if c and ((c[0] == 'is' and c[2] == 'None' and not c[3]) or (c[0] == 'truthy' and c[3])) else None
-        run.check(var is not None, r, si.short, 'loop runs while a stabilisation step exists', 'loop condition is not `step is not None`', w)
-        if var:
-            defs = q.assigned_value(S, var)
-            crs = [st for st, v in defs if any(x.node is strip_cast(v) for x in cr)]
-            run.check(len(defs) == len(crs) and len(crs) >= 2 or (len(crs) == 1 and isinstance(w.test, ast.NamedExpr)), r, si.short,
-                      'step recomputed from _create_stabilization_step before the loop and at the end of each iteration',
-                      'the loop variable must always come from _create_stabilization_step', w)
-            inbody = [st for st in crs if q.in_block(st, w.body)]
-            run.check(len(inbody) == 1 and not guards(inbody[0], stop=w), r, si.short, 'unconditional recomputation in the loop body',
-                      'the next stabilisation step is not always recomputed', w)
-            for a in ap:
-                run.check(q.in_block(a.node, w.body) and not guards(a.node, stop=w) and obj_is(a.extra['arg'], var), r, si.short,
-                          'every non-None step is applied', 'a stabilisation step may be skipped', a.node)
-                for st in inbody:
-                    run.check(q.strictly_before(S, a.node, st), r, si.short, 'apply before recomputing', 'order of apply/recompute', st)
-            brk = [n for n in ast.walk(w) if isinstance(n, (ast.Break, ast.Return))]
-            run.check(not brk, r, si.short, 'no early exit from the stabilisation loop', 'the loop can be left before the configuration is stable', w)
-        for c_ in cr:
-            a0 = q.arg(c_.node, 0, 'names')
-            run.check(a0 is not None and dotted(strip_cast(a0)) in ('self._configuration', 'self.configuration'), r, si.short,
-                      'stabilisation looks at the whole active configuration', 'argument is not the active configuration', c_.node)
+    run.check(len(cr) >= 1 and len(ap) >= 1, r, si.short, '_stabilize computes and applies stabilisation steps', 'missing calls', S)
+    scfg = build_cfg(S)
+    for c_ in cr:
+        a0 = q.arg(c_.node, 0, 'names')
+        run.check(a0 is not None and dotted(strip_cast(a0)) in ('self._configuration', 'self.configuration'), r, si.short,
+                  'stabilisation looks at the whole active configuration', 'argument is not the active configuration', c_.node)
+        st = q.enclosing_stmt(c_.node)
+        var = st.targets[0].id if isinstance(st, ast.Assign) and isinstance(st.targets[0], ast.Name) else None
+        run.check(var is not None and strip_cast(st.value) is c_.node, r, si.short, 'the computed step is kept in a local, unconditionally',
+                  'the next stabilisation step is not always (re)computed', c_.node)
+        if var is None:
+            continue
+
+        def sink(node, var=var):
+            return any(x.node is not None and scfg.node_of(x.node) is node and obj_is(x.extra['arg'], var) for x in ap)
+        # (i) every computed step is applied or tested None before it is overwritten / the function returns
+        bad = q.result_dropped(S, st, var, sink)
+        run.check(not bad, r, si.short, 'every non-None stabilisation step is applied',
+                  'a computed stabilisation step can be dropped without being applied (path %s)' % (bad[0] if bad else ''), st)
+    # (ii) after applying a step the function cannot return without computing the next one
+    crn = [scfg.node_of(c_.node) for c_ in cr]
+    for a in ap:
+        an = scfg.node_of(a.node)
+        run.check(scfg.cut(crn, scfg.exit) if False else not scfg.reaches(an, scfg.exit, avoiding=crn), r, si.short,
+                  'stabilisation continues until nothing is left', 'after applying a step the function can return without looking for the next one', a.node)
 
 
 def _isinstance_classes(test):
@@ -181,50 +179,61 @@ def rules_stabilization(run):
     r = run.rule('C02.5', 'an active orthogonal state with an inactive child is completed: some branch scans states derived from `names` '
                           '(not only the leaves), tests OrthogonalState and enters the children that are not active')
     found = False
-    for n in q.walk(F):
-        if not isinstance(n, ast.If):
-            continue
-        for subj, ks, node in _isinstance_classes(n.test):
-            if 'OrthogonalState' not in ks:
+
+    def derives(subject_expr):
+        """(derives from `names`, passes through leaf_for) for the names read by an expression."""
+        via_leaf = False
+        from_names = False
+        work = [x.id for x in ast.walk(subject_expr) if isinstance(x, ast.Name)]
+        seen_n = set()
+        while work:
+            v = work.pop()
+            if v in seen_n:
                 continue
-            # where does the subject come from?
-            names_in = {x.id for x in ast.walk(subj) if isinstance(x, ast.Name)}
-            via_leaf = False
-            from_names = False
-            work = list(names_in)
-            seen_n = set()
-            while work:
-                v = work.pop()
-                if v in seen_n:
+            seen_n.add(v)
+            if v == names_p:
+                from_names = True
+            srcs = [val for st, val in q.assigned_value(F, v)] + [lp.iter for lp in q.for_targets(F, v)]
+            for sx in srcs:
+                if any(isinstance(c, ast.Call) and 'Statechart.leaf_for' in q.callee_shorts(run, c)[0] for c in ast.walk(sx)):
+                    via_leaf = True
                     continue
-                seen_n.add(v)
-                if v == names_p:
-                    from_names = True
-                srcs = [val for st, val in q.assigned_value(F, v)] + [lp.iter for lp in q.for_targets(F, v)]
-                for sx in srcs:
-                    if any(isinstance(c, ast.Call) and 'Statechart.leaf_for' in q.callee_shorts(run, c)[0] for c in ast.walk(sx)):
-                        via_leaf = True
-                        continue
-                    work += [x.id for x in ast.walk(sx) if isinstance(x, ast.Name)]
-            if from_names and not via_leaf:
-                # the branch must enter children that are not in names
-                body_ms = [c for c in q.calls(n) if dotted(c.func) == 'MicroStep']
-                for c in body_ms:
-                    ent = q.kwargs_of(c).get('entered_states')
-                    if ent is None:
-                        continue
-                    exprs = [ent] + q.local_origin(F, ent) + [strip_cast(x).args[0] for x in [ent] + q.local_origin(F, ent)
-                                                              if isinstance(strip_cast(x), ast.Call) and strip_cast(x).args]
-                    exprs2 = []
+                work += [x.id for x in ast.walk(sx) if isinstance(x, ast.Name)]
+        return from_names, via_leaf
+    for c in [c for c in q.calls(F, nested=False) if dotted(c.func) == 'MicroStep']:
+        ent = q.kwargs_of(c).get('entered_states')
+        if ent is None:
+            continue
+        for test, pol, kind in guards(c):
+            if not pol and not kind.startswith('early'):
+                continue
+            # the guard (or the negated early-exit condition) must establish isinstance(S, OrthogonalState)
+            for subj, ks, node in _isinstance_classes(test):
+                if 'OrthogonalState' not in ks:
+                    continue
+                established = any(a[0] == 'truthy' and a[1].replace(' ', '') == q.unparse(node).replace(' ', '') for a in guard_atoms(c))
+                if not established:
+                    continue
+                fn_, vl = derives(subj)
+                if not fn_ or vl:
+                    continue
+                exprs = [ent]
+                for _ in range(3):
+                    nxt = []
                     for x in exprs:
-                        exprs2 += [x] + q.local_origin(F, x)
-                    for x in exprs2:
                         x = strip_cast(x)
-                        if isinstance(x, ast.ListComp) and any('Statechart.children_for' in q.callee_shorts(run, cc)[0]
-                                                                for cc in ast.walk(x.generators[0].iter) if isinstance(cc, ast.Call)):
-                            ifs = x.generators[0].ifs
-                            if len(ifs) == 1 and q.canon_atom(ifs[0]) and q.canon_atom(ifs[0])[0] == 'in' and not q.canon_atom(ifs[0])[3]:
-                                found = True
+                        nxt += [y for y, st_ in q.alternatives(F, x)]
+                        if isinstance(x, ast.Call) and x.args:
+                            nxt.append(x.args[0])
+                    exprs = exprs + nxt
+                for x in exprs:
+                    x = strip_cast(x)
+                    if isinstance(x, ast.ListComp) and any('Statechart.children_for' in q.callee_shorts(run, cc)[0]
+                                                            for cc in ast.walk(x.generators[0].iter) if isinstance(cc, ast.Call)):
+                        ifs = x.generators[0].ifs
+                        ca = q.canon_atom(ifs[0]) if len(ifs) == 1 else None
+                        if ca and ca[0] == 'in' and not ca[3] and derives(ast.parse(ca[2], mode='eval').body)[0]:
+                            found = True
     run.check(found, r, fi.short, 'orthogonal completion for states entered through one region',
               'only leaves are examined for default entry: an orthogonal state entered through a transition that targets a state nested '
               'in one of its regions keeps its other regions inactive (illegal configuration)', F)
@@ -293,17 +302,12 @@ def rules_create_steps(run):
         inits = [v for st, v in q.assigned_value(F, last_var) if not any(q.in_node(st, w) for w in src_walk)]
         run.check(len(inits) == 1 and q.unparse(inits[0]) == t + '.source', r, fi.short, 'walk starts at the source itself',
                   'the LCA child defaults to the source state', L)
-        # descendants loop
-        dl = [w for w in walks if any(isinstance(c, ast.Call) and 'Statechart.descendants_for' in q.callee_shorts(run, c)[0]
-                                      and c.args and q.unparse(c.args[0]) == last_var for c in ast.walk(w.iter))]
-        run.check(len(dl) == 1, r, fi.short, 'exit candidates = descendants of the LCA child', 'expected one loop over descendants_for(<LCA child>)', L)
         ms = [c for c in q.calls(L) if dotted(c.func) == 'MicroStep' and 'exited_states' in q.kwargs_of(c)]
         run.anchor(ms, r, 'MicroStep(.., exited_states=..) in _create_steps')
         ex = q.kwargs_of(ms[0])['exited_states']
         en = q.kwargs_of(ms[0]).get('entered_states')
         exv = ex.id if isinstance(ex, ast.Name) else None
-        apps = [c for c in q.calls(L) if isinstance(c.func, ast.Attribute) and c.func.attr == 'append' and isinstance(c.func.value, ast.Name)
-                and c.func.value.id == exv]
+        accs = q.accumulations(F, exv) if exv else []
 
         def classify(op, l, r_, e):
             if op == 'in' and r_ in ('self._configuration', 'self.configuration'):
@@ -313,16 +317,32 @@ def rules_create_steps(run):
             if op == 'truthy' and l == t + '.internal':
                 return 'INTERNAL'
             return None
-        for a in apps:
-            val = q.unparse(a.args[0])
+        n_desc = n_self = 0
+        for elt, it, conds, node in accs:
+            if elt is None:
+                run.fail(r, fi.short, 'exit list extended with ' + q.unparse(it)[:40], 'unrecognised accumulation into the exit list', node)
+                continue
+            val = q.unparse(elt)
+            from_desc = it is not None and any(isinstance(c, ast.Call) and 'Statechart.descendants_for' in q.callee_shorts(run, c)[0] and c.args
+                                               and q.unparse(c.args[0]) == last_var for x in [it] + [o for o in q.local_origin(F, it)] for c in ast.walk(x))
+            is_self = val == last_var
+            if from_desc:
+                n_desc += 1
+            elif is_self:
+                n_self += 1
+            else:
+                run.fail(r, fi.short, 'exit list receives ' + val, 'a state that is neither the LCA child nor one of its descendants is exited', node)
+                continue
+            # outer conditions of the statement (e.g. the internal-transition early exit) + the element's own filter
+            outer = [(g[0], g[1], g[2]) for g in guards(node, stop=L)] if not isinstance(node, ast.Call) or q.enclosing(node, ast.For) is L else \
+                [(g[0], g[1], g[2]) for g in guards(q.enclosing(node, ast.For), stop=L)]
             ba = q.BoolAbs(classify)
-            inner = q.enclosing(a, ast.For)
-            vs, sat = ba.table(guards(a, stop=inner if inner is not L else L))
+            vs, sat = ba.table([(c_, p_, 'own') for c_, p_ in conds] + outer)
             bad = q.table_equals(vs, sat, lambda v_: v_.get('ACTIVE:' + val, False) and not v_.get('INTERNAL', False))
             run.check(not bad and set(vs) <= {'ACTIVE:' + val, 'INTERNAL'}, r, fi.short, 'exit of %s filtered only by being active' % val,
-                      'exit filter depends on more than membership in the active configuration (%s)' % vs, a)
-        vals = [q.unparse(a.args[0]) for a in apps]
-        run.check(last_var in vals and len(apps) == 2, r, fi.short, 'the LCA child itself is exited', 'the LCA child must be part of the exit set', L)
+                      'exit filter depends on more than membership in the active configuration (%s)' % vs, node)
+        run.check(n_desc == 1, r, fi.short, 'exit candidates = descendants of the LCA child', 'expected one accumulation over descendants_for(<LCA child>), found %d' % n_desc, L)
+        run.check(n_self == 1, r, fi.short, 'the LCA child itself is exited', 'the LCA child must be part of the exit set', L)
         if en is not None and isinstance(en, ast.Name):
             init = [v for st, v in q.assigned_value(F, en.id)]
             run.check(len(init) == 1 and q.unparse(init[0]) == '[%s.target]' % t, r, fi.short, 'entry path ends with the target', 'entry list must start as [target]', L)
